@@ -22,21 +22,23 @@ theorem reloadUntyped_hit_ok {env : Env} {fuel : Nat} {s : St} {key : Key} {c : 
     (hh : reloadHit env fuel s key = true) (ho : reloadOut env fuel s key = .ok v) :
     (reloadUntyped env fuel s key).2 = .done (some (reloadDeps env fuel s key, true)) ∧
     (∃ c2, (reloadUntyped env fuel s key).1.lookup key = some c2 ∧ c2.val = v ∧ c2.dyn = true) ∧
-    (∀ k, k ≠ key → (reloadUntyped env fuel s key).1.lookup k = s.lookup k) := by
+    (∀ k, k ≠ key → (reloadUntyped env fuel s key).1.lookup k = s.lookup k) ∧
+    (reloadUntyped env fuel s key).1.out = s.out := by
   have hmap := reloadHit_map hh
+  have hout := reloadHit_out hh
   unfold reloadOut at ho
   unfold reloadDeps
   unfold reloadUntyped
   simp only [hc, hd, Bool.not_true, Bool.and_false, Bool.false_eq_true, if_false]
-  generalize hr : reloadEval env fuel s key = r0 at hmap ho ⊢
+  generalize hr : reloadEval env fuel s key = r0 at hmap hout ho ⊢
   unfold reloadEval at hr
   simp only [hr]
   obtain ⟨s1, o, deps⟩ := r0
-  simp only [] at hmap ho ⊢
+  simp only [] at hmap hout ho ⊢
   subst ho
   have hl : ∀ k, St.lookup { s1 with recs := [] } k = s.lookup k := fun k => St.lookup_congr hmap k
   simp only [hl key, hc, if_true]
-  refine ⟨trivial, ⟨{ c with val := v, rid := (AtomicReloadId_increment c.rid).2, flag := true }, ?_, rfl, hd⟩, ?_⟩
+  refine ⟨trivial, ⟨{ c with val := v, rid := (AtomicReloadId_increment c.rid).2, flag := true }, ?_, rfl, hd⟩, ?_, hout⟩
   · rw [St.swapValue_lookup]
     exact St.setCell_lookup_self _ _ _ c ((hl key).trans hc)
   · intro k hk
@@ -47,21 +49,23 @@ theorem reloadUntyped_hit_err {env : Env} {fuel : Nat} {s : St} {key : Key} {c :
     (hc : s.lookup key = some c) (hd : c.dyn = true)
     (hh : reloadHit env fuel s key = true) (ho : reloadOut env fuel s key = .err e) :
     (reloadUntyped env fuel s key).2 = .done (some (reloadDeps env fuel s key, false)) ∧
-    (∀ k, (reloadUntyped env fuel s key).1.lookup k = s.lookup k) := by
+    (∀ k, (reloadUntyped env fuel s key).1.lookup k = s.lookup k) ∧
+    (reloadUntyped env fuel s key).1.out = s.out := by
   have hcfg : failedReloadKeepsNewDeps = true := by decide
   have hmap := reloadHit_map hh
+  have hout := reloadHit_out hh
   unfold reloadOut at ho
   unfold reloadDeps
   unfold reloadUntyped
   simp only [hc, hd, Bool.not_true, Bool.and_false, Bool.false_eq_true, if_false]
-  generalize hr : reloadEval env fuel s key = r0 at hmap ho ⊢
+  generalize hr : reloadEval env fuel s key = r0 at hmap hout ho ⊢
   unfold reloadEval at hr
   simp only [hr]
   obtain ⟨s1, o, deps⟩ := r0
-  simp only [] at hmap ho ⊢
+  simp only [] at hmap hout ho ⊢
   subst ho
   simp only [hcfg, if_true]
-  exact ⟨trivial, fun k => St.lookup_congr hmap k⟩
+  exact ⟨trivial, fun k => St.lookup_congr hmap k, hout⟩
 
 /-! ## Forward view of the graph maintenance: `typed` and `deps` of every node -/
 
@@ -209,28 +213,30 @@ theorem reloadAll_one_ok {env : Env} {fuel : Nat} {k : Key} {s : St} {r : RSt} {
     (hh : reloadHit env fuel s k = true) (ho : reloadOut env fuel s k = .ok v) :
     (reloadAll env fuel [k] (s, r)).2 = { r with graph := r.graph.insertAsset (.asset k) (reloadDeps env fuel s k) } ∧
     (∃ c2, (reloadAll env fuel [k] (s, r)).1.lookup k = some c2 ∧ c2.val = v ∧ c2.dyn = true) ∧
-    (∀ k', k' ≠ k → (reloadAll env fuel [k] (s, r)).1.lookup k' = s.lookup k') := by
+    (∀ k', k' ≠ k → (reloadAll env fuel [k] (s, r)).1.lookup k' = s.lookup k') ∧
+    (reloadAll env fuel [k] (s, r)).1.out = s.out := by
   rw [reloadAll_one_registered hd hg ht]
-  obtain ⟨h1, h2, h3⟩ := reloadUntyped_hit_ok hc hdyn hh ho
-  generalize reloadUntyped env fuel s k = y at h1 h2 h3 ⊢
+  obtain ⟨h1, h2, h3, h4⟩ := reloadUntyped_hit_ok hc hdyn hh ho
+  generalize reloadUntyped env fuel s k = y at h1 h2 h3 h4 ⊢
   obtain ⟨s1, o⟩ := y
-  simp only [] at h1 h2 h3
+  simp only [] at h1 h2 h3 h4
   subst h1
-  exact ⟨rfl, h2, h3⟩
+  exact ⟨rfl, h2, h3, h4⟩
 
 theorem reloadAll_one_err {env : Env} {fuel : Nat} {k : Key} {s : St} {r : RSt} {node : GNode} {c : Cell} {e : LErr}
     (hd : r.dead = false) (hg : r.graph.get (.asset k) = some node) (ht : node.typed = true)
     (hc : s.lookup k = some c) (hdyn : c.dyn = true)
     (hh : reloadHit env fuel s k = true) (ho : reloadOut env fuel s k = .err e) :
     (reloadAll env fuel [k] (s, r)).2 = { r with graph := r.graph.addDeps (.asset k) (reloadDeps env fuel s k) } ∧
-    (∀ k', (reloadAll env fuel [k] (s, r)).1.lookup k' = s.lookup k') := by
+    (∀ k', (reloadAll env fuel [k] (s, r)).1.lookup k' = s.lookup k') ∧
+    (reloadAll env fuel [k] (s, r)).1.out = s.out := by
   rw [reloadAll_one_registered hd hg ht]
-  obtain ⟨h1, h2⟩ := reloadUntyped_hit_err hc hdyn hh ho
-  generalize reloadUntyped env fuel s k = y at h1 h2 ⊢
+  obtain ⟨h1, h2, h3⟩ := reloadUntyped_hit_err hc hdyn hh ho
+  generalize reloadUntyped env fuel s k = y at h1 h2 h3 ⊢
   obtain ⟨s1, o⟩ := y
-  simp only [] at h1 h2
+  simp only [] at h1 h2 h3
   subst h1
-  exact ⟨rfl, h2⟩
+  exact ⟨rfl, h2, h3⟩
 
 /-- a registered key that is not cached, or cached in a static entry: nothing happens -/
 theorem reloadAll_one_skipped {env : Env} {fuel : Nat} {k : Key} {s : St} {r : RSt}
@@ -502,7 +508,7 @@ theorem pinv_step {env' : Env} (hS' : env'.Steady) {fuel : Nat} {g0 : Graph} {k 
     (hrew : ∀ node c, PassStep.Performs ⟨k, rest, s, r⟩ node c →
       ∀ y, Dep.asset y ∈ reloadDeps env' fuel s k → Dep.asset y ∉ node.deps → y ≠ k ∧ y ∉ rest) :
     PInv env' fuel g0 rest (reloadAll env' fuel [k] (s, r)).1 (reloadAll env' fuel [k] (s, r)).2.graph ∧
-    (reloadAll env' fuel [k] (s, r)).2.dead = false := by
+    (reloadAll env' fuel [k] (s, r)).2.dead = false ∧ (reloadAll env' fuel [k] (s, r)).1.out = s.out := by
   by_cases hp : ∃ node c, r.graph.get (.asset k) = some node ∧ node.typed = true ∧ s.lookup k = some c ∧ c.dyn = true
   · obtain ⟨node, c, hg, ht, hc, hdyn⟩ := hp
     have hper : PassStep.Performs ⟨k, rest, s, r⟩ node c := ⟨hg, ht, hc, hdyn⟩
@@ -517,12 +523,12 @@ theorem pinv_step {env' : Env} (hS' : env'.Steady) {fuel : Nat} {g0 : Graph} {k 
         · exact h1 e
         · exact h2 e
     rcases hends node c hper with ⟨v, ho⟩ | ⟨e, ho⟩
-    · obtain ⟨e1, e2, e3⟩ := reloadAll_one_ok hdead hg ht hc hdyn hh ho
+    · obtain ⟨e1, e2, e3, e4⟩ := reloadAll_one_ok hdead hg ht hc hdyn hh ho
       rw [e1]
-      exact ⟨pinv_ok hS' hinv hh ho hF hnd e2 e3, hdead⟩
-    · obtain ⟨e1, e2⟩ := reloadAll_one_err hdead hg ht hc hdyn hh ho
+      exact ⟨pinv_ok hS' hinv hh ho hF hnd e2 e3, hdead, e4⟩
+    · obtain ⟨e1, e2, e3⟩ := reloadAll_one_err hdead hg ht hc hdyn hh ho
       rw [e1]
-      exact ⟨pinv_err hS' hinv hg hh ho hF hnd e2, hdead⟩
+      exact ⟨pinv_err hS' hinv hg hh ho hF hnd e2, hdead, e3⟩
   · have hsame : reloadAll env' fuel [k] (s, r) = (s, r) := by
       by_cases hreg : ∃ node, r.graph.get (.asset k) = some node ∧ node.typed = true
       · obtain ⟨node, hg, ht⟩ := hreg
@@ -535,7 +541,7 @@ theorem pinv_step {env' : Env} (hS' : env'.Steady) {fuel : Nat} {g0 : Graph} {k 
         | false => rfl
         | true => exact (hreg ⟨node, hg, htt⟩).elim
     rw [hsame]
-    exact ⟨pinv_skip hinv (fun node c h1 h2 h3 h4 => hp ⟨node, c, h1, h2, h3, h4⟩), hdead⟩
+    exact ⟨pinv_skip hinv (fun node c h1 h2 h3 h4 => hp ⟨node, c, h1, h2, h3, h4⟩), hdead, rfl⟩
 
 /-- **The pass**: from the invariant for the whole list to `Settled` at the end. -/
 theorem reloadAll_converges {env' : Env} (hS' : env'.Steady) {fuel : Nat} {g0 : Graph} :
@@ -545,20 +551,21 @@ theorem reloadAll_converges {env' : Env} (hS' : env'.Steady) {fuel : Nat} {g0 : 
     ReloadsReturn env' fuel (passSteps env' fuel post (s, r)) →
     NoRewireOntoPending env' fuel (passSteps env' fuel post (s, r)) →
     Settled env' fuel (reloadAll env' fuel post (s, r)).1 (reloadAll env' fuel post (s, r)).2.graph ∧
-    (reloadAll env' fuel post (s, r)).2.dead = false := by
+    (reloadAll env' fuel post (s, r)).2.dead = false ∧ (reloadAll env' fuel post (s, r)).1.out = s.out := by
   intro post
   induction post with
-  | nil => intro s r hinv hdead _ _ _ _ _; exact ⟨hinv.settled_nil, hdead⟩
+  | nil => intro s r hinv hdead _ _ _ _ _; exact ⟨hinv.settled_nil, hdead, rfl⟩
   | cons k rest ih =>
     intro s r hinv hdead hnd hord h1 h2 h3
     have hhead : (⟨k, rest, s, r⟩ : PassStep) ∈ passSteps env' fuel (k :: rest) (s, r) := List.mem_cons_self
     have htail : ∀ st, st ∈ passSteps env' fuel rest (reloadAll env' fuel [k] (s, r)) →
         st ∈ passSteps env' fuel (k :: rest) (s, r) := fun st h => List.mem_cons_of_mem _ h
-    obtain ⟨i1, i2⟩ := pinv_step hS' hinv hdead hnd hord (h1 _ hhead) (h2 _ hhead) (h3 _ hhead)
+    obtain ⟨i1, i2, i3⟩ := pinv_step hS' hinv hdead hnd hord (h1 _ hhead) (h2 _ hhead) (h3 _ hhead)
     rw [reloadAll_cons_eq]
-    exact ih (reloadAll env' fuel [k] (s, r)).1 (reloadAll env' fuel [k] (s, r)).2 i1 i2
+    obtain ⟨j1, j2, j3⟩ := ih (reloadAll env' fuel [k] (s, r)).1 (reloadAll env' fuel [k] (s, r)).2 i1 i2
       (List.nodup_cons.mp hnd).2 hord.tail
       (fun st h => h1 st (htail st h)) (fun st h => h2 st (htail st h)) (fun st h => h3 st (htail st h))
+    exact ⟨j1, j2, j3.trans i3⟩
 
 /-! ## The invariant holds at the start of a pass -/
 
@@ -755,5 +762,13 @@ def updateSteps (env : Env) (fuel : Nat) (s : St) (r : RSt) : List PassStep :=
   match topo r.graph fuel r.toReload with
   | some keys => passSteps env fuel keys (s, { r with toReload := [] })
   | none => []
+
+theorem processMsgs_nil (s : St) (r : RSt) (h : s.out = []) : processMsgs s r = (s, r) := by
+  unfold processMsgs
+  rw [h]
+  cases s
+  simp only [List.foldl_nil] at h ⊢
+  subst h
+  rfl
 
 end AmVerif.Model
